@@ -156,6 +156,32 @@ pub fn run(env: &Env) -> PropRun {
         &make,
         &j,
     ));
+    // every margin pair x origin mode on/off x every cursor cell - also rows above and below
+    // the region with origin mode ON, which only a restored cursor reaches (c05::setup)
+    {
+        let mut oc: Vec<Case> = vec![];
+        for (cols, rows) in [(3usize, 3usize), (4, 4)] {
+            let cmds = commands(cols);
+            for m in super::c05::margin_options(rows) {
+                if m.is_none() {
+                    continue;
+                }
+                for origin in [false, true] {
+                    for row in 0..rows {
+                        for col in [0usize, cols / 2, cols - 1, cols] {
+                            for cmd in &cmds {
+                                let mut s = gen::fill_screen_mode(cols, rows, 1);
+                                s.push_str("\x1b[45m");
+                                s.push_str(&super::c05::setup(cols, rows, m, origin, row, col));
+                                oc.push(Case::new(cols, rows, None).feed(s).feed(cmd.clone()));
+                            }
+                        }
+                    }
+                }
+            }
+        }
+        parts.push(run_part(env, "enum-regions-origin", oc.len(), true, "sizes {3x3,4x4} x every proper scroll region x origin mode on/off x every row (inside, above, below the region) x 4 columns incl. wrap-pending x every editing command and count class, non-default pen", &|i| oc.get(i).cloned(), &j));
+    }
     if env.tier == crate::engine::Tier::Thorough {
         // all ordered pairs of editing commands on 4x3 and 3x2
         struct PB {
